@@ -33,7 +33,7 @@ claimed = {
    note="amd64 TSO; yields only at storage calls and at the hook sites; sync.Pool inside fmt/regexp may add hidden edges; knobs fixed before clients start; solo run shares the process with the concurrent run. Race reports without kvql frames are harness defects (exit 2).",
    tech="deterministic simulation: seeded interleaving search with a race-invisible token scheduler (storage-call and library-internal yield points), race detector armed, solo-run oracle, porcupine linearizability check of the recorded history"),
  "C03": dict(cat="exploration", ref="§4 C03",
-   text="Statements from a typed generator over the full language (swarm of feature families) executed twice on equal simulated stores, drained row-at-a-time and in batches, at batch sizes from 1 to beyond the result; content comparison in order (multiset inside ORDER BY ties), final store and mutation log for write statements; row-error-with-batch-success, one-sided panics/non-termination and content differences are violations.",
+   text="Statements from a typed generator over the full language (swarm of feature families) executed twice on equal simulated stores, drained row-at-a-time and in batches, at batch sizes from 1 to beyond the result; content comparison in order (multiset inside ORDER BY ties), final store for write statements; row-error-with-batch-success, one-sided panics/non-termination and content differences are violations.",
    note="Batch-only error values tolerated (the property allows that direction); quantile not generated; ORDER BY only over uniformly typed fields; statements the planner rejects are skipped.",
    tech="deterministic simulation: drain-schedule x chunk-size configuration search, cross-configuration agreement oracle"),
  "C05": dict(cat="exploration", ref="§4 C05",
